@@ -372,7 +372,7 @@ partial def loop (h : IO.FS.Stream) (out : IO.FS.Stream) (cfg : WorkflowModel.En
     | none => out.putStrLn "bad-op"; out.flush; loop h out cfg sys rs
   | ["hist"] =>
     -- the executable mirror of the history invariant (Props/History.lean) on the model's current state
-    out.putStrLn (if WorkflowModel.Engine.histOK cfg sys then "legal" else "illegal"); out.flush; loop h out cfg sys rs
+    out.putStrLn (if WorkflowModel.Engine.histOK cfg sys && WorkflowModel.Engine.oneUnfB sys then "legal" else "illegal"); out.flush; loop h out cfg sys rs
   | ["tok"] =>
     -- the executable mirror of the token invariant (Props/History.lean, C01_no_stranded_step) on the model's current state
     out.putStrLn (if WorkflowModel.Engine.tokOK sys then "pending" else "stranded"); out.flush; loop h out cfg sys rs
